@@ -194,9 +194,9 @@ Qed.
 (* ---------------------------------------------------------------- specifications *)
 Definition USpec (n : nat) (U : updater) : Prop :=
   forall c j s stk t s' ch,
-    j < n -> j < t -> Inv stk t s -> ctx_ok stk c -> TopOK c s ->
+    j < n -> j < t -> Inv stk t s -> ctx_ok stk c ->
     U c j s = (s', ch) ->
-    Inv stk t s' /\ TopOK c s' /\ PullRel (S j) stk None s s' /\
+    Inv stk t s' /\ PullRel (S j) stk None s s' /\
     subs (getn s' j) = subs (getn s j) /\
     (memob j = true -> st (getn s' j) = Clean /\ cache (getn s' j) <> None).
 
